@@ -555,19 +555,19 @@ pub fn apply_b<'b, T: El>(b: &'b Bump, v: &mut BVec<'b, T>, op: &VOp, kept: &mut
         }
         VOp::Reserve(n) => {
             v.reserve(*n);
-            Res::Flag(v.capacity() >= v.len() + *n)
+            Res::Flag(v.len().checked_add(*n).map_or(false, |w| v.capacity() >= w))
         }
         VOp::ReserveExact(n) => {
             v.reserve_exact(*n);
-            Res::Flag(v.capacity() >= v.len() + *n)
+            Res::Flag(v.len().checked_add(*n).map_or(false, |w| v.capacity() >= w))
         }
         VOp::TryReserve(n) => {
             let r = v.try_reserve(*n).is_ok();
-            Res::Flag(r && v.capacity() >= v.len() + *n)
+            Res::Flag(r && v.len().checked_add(*n).map_or(false, |w| v.capacity() >= w))
         }
         VOp::TryReserveExact(n) => {
             let r = v.try_reserve_exact(*n).is_ok();
-            Res::Flag(r && v.capacity() >= v.len() + *n)
+            Res::Flag(r && v.len().checked_add(*n).map_or(false, |w| v.capacity() >= w))
         }
         VOp::ShrinkToFit => {
             v.shrink_to_fit();
@@ -1182,6 +1182,22 @@ pub fn apply_s<T: El>(v: &mut Vec<T>, op: &VOp, sboxes: &mut Vec<Box<[T]>>) -> R
     }
 }
 
+/// `additional` for the reserve family: small, or (1 in 5) from the class where `len + additional`
+/// overflows or exceeds isize::MAX bytes for every non-zero element size, so that std answers with
+/// CapacityOverflow / a "capacity overflow" panic before asking its allocator for anything.
+fn gen_additional(rng: &mut Rng, len: usize, small: usize) -> usize {
+    if rng.chance(4, 5) {
+        return rng.below(small);
+    }
+    match rng.below(5) {
+        0 => usize::MAX,
+        1 => usize::MAX - len,
+        2 => (usize::MAX - len).wrapping_add(1),
+        3 => (isize::MAX as usize) + 1,
+        _ => usize::MAX - rng.below(64),
+    }
+}
+
 fn gen_keys(rng: &mut Rng, max: usize) -> Vec<u32> {
     let n = rng.below(max + 1);
     (0..n).map(|_| rng.below(40) as u32 + 1).collect()
@@ -1261,13 +1277,13 @@ pub fn gen_op<T: El>(rng: &mut Rng, len: usize) -> VOp {
             }
         }
         44 => VOp::DedupByKey(rng.range(1, 4) as u32),
-        45 => VOp::Reserve(rng.below(200)),
-        46 => VOp::ReserveExact(rng.below(100)),
+        45 => VOp::Reserve(gen_additional(rng, len, 200)),
+        46 => VOp::ReserveExact(gen_additional(rng, len, 100)),
         47 => {
             if rng.chance(1, 2) {
-                VOp::TryReserve(rng.below(300))
+                VOp::TryReserve(gen_additional(rng, len, 300))
             } else {
-                VOp::TryReserveExact(rng.below(300))
+                VOp::TryReserveExact(gen_additional(rng, len, 300))
             }
         }
         48 => VOp::ShrinkToFit,
